@@ -225,11 +225,18 @@ bool Scheduler::join(const RoutineToken &other_routine)
 
         routine->join_token = d_->curr_routine->token;
 
-        d_->curr_routine->state = Routine::State::kSuspend;
-        swapcontext(&(d_->curr_routine->ctx), &d_->main_ctx);
+        //! a finished routine is removed from the cabinet before its joiner is resumed;
+        //! anything else that resumes us (resume() by somebody else) must not end the join
+        do {
+            d_->curr_routine->state = Routine::State::kSuspend;
+            swapcontext(&(d_->curr_routine->ctx), &d_->main_ctx);
 
-        //! 如果不是被cancel唤醒的，那返回成功；否则返回失败
-        return !d_->curr_routine->is_canceled;
+            //! 如果不是被cancel唤醒的，那返回成功；否则返回失败
+            if (d_->curr_routine->is_canceled)
+                return false;
+        } while (d_->routine_cabinet.at(other_routine) != nullptr);
+
+        return true;
     }
     return false;
 }
